@@ -157,6 +157,7 @@ theorem wfcN_level (S : NStore) (h : WFCN S) : LevelOkC S := by
 /-- either the entry's content is plain, or it is (exactly) a well-formed nested store -/
 inductive ValCase (S : NStore) (E : Entry) : Prop where
   | plain (h : E.plain = true)
+  | refused (h : notStore S.pol E.content = true)
   | nested (n : NStore) (hn : n ∈ S.subs) (hc : E.content = n.ser) (hv : E.value = n.ser) (hx : E.ext = none)
       (hpol : n.pol = S.pol) (hnd : ∀ a nx b, E ≠ .dead a nx b)
 
@@ -171,7 +172,11 @@ theorem valCase_of_level (S : NStore) (hl : LevelOk S) (E : Entry) (hE : E ∈ S
   | dead a nx b => exact .plain (dead_plain a nx b)
   | var f g nm v x nx =>
     cases v with
-    | raw b => exact .plain (by simpa [NEntry.valueOk, valueOk, NEntry.flat, Entry.plain, Entry.content, NValue.bytes] using hv)
+    | raw b =>
+      simp only [NEntry.valueOk, valueOk, Bool.or_eq_true] at hv
+      rcases hv with hv | hv
+      · exact .plain (by simpa [NEntry.flat, Entry.plain, Entry.content, NValue.bytes] using hv)
+      · exact .refused (by simpa [NEntry.flat, Entry.content, NValue.bytes] using hv)
     | store n =>
       simp only [NEntry.valueOk, valueOk, Bool.and_eq_true, Option.isNone_iff_eq_none, beq_iff_eq] at hv
       obtain ⟨hx, hp⟩ := hv
@@ -181,7 +186,11 @@ theorem valCase_of_level (S : NStore) (hl : LevelOk S) (E : Entry) (hE : E ∈ S
       · intro a nx' b hh; cases hh
   | data f v x nx =>
     cases v with
-    | raw b => exact .plain (by simpa [NEntry.valueOk, valueOk, NEntry.flat, Entry.plain, Entry.content, NValue.bytes] using hv)
+    | raw b =>
+      simp only [NEntry.valueOk, valueOk, Bool.or_eq_true] at hv
+      rcases hv with hv | hv
+      · exact .plain (by simpa [NEntry.flat, Entry.plain, Entry.content, NValue.bytes] using hv)
+      · exact .refused (by simpa [NEntry.flat, Entry.content, NValue.bytes] using hv)
     | store n =>
       simp only [NEntry.valueOk, valueOk, Bool.and_eq_true, Option.isNone_iff_eq_none, beq_iff_eq] at hv
       obtain ⟨hx, hp⟩ := hv
@@ -189,6 +198,23 @@ theorem valCase_of_level (S : NStore) (hl : LevelOk S) (E : Entry) (hE : E ∈ S
       refine .nested n (List.mem_filterMap.2 ⟨_, he, rfl⟩) ?_ rfl rfl hp ?_
       · simp [NEntry.flat, Entry.content, NValue.bytes, extSer, NStore.ser]
       · intro a nx' b hh; cases hh
+
+/-- a content fiano does not take for a store: the parsed entry carries no nested store -/
+theorem nestedOf_opaque (pol : Nat) (guids : List Bytes) (r : Row) (h : notStore pol r.entry.content = true) :
+    nestedOf pol (expectNVar pol guids r) = none := by
+  unfold nestedOf
+  rw [content_expect, expect_hasContent]
+  obtain ⟨o, e, hd⟩ := r
+  have herr : ∃ e', parseStore pol e.content = .error e' := by
+    unfold notStore at h
+    split at h
+    · cases h
+    · rename_i e' he; exact ⟨e', he⟩
+  obtain ⟨e', he'⟩ := herr
+  cases e with
+  | dead a nx b => simp
+  | var f g n v x nx => simp only [he']; split <;> rfl
+  | data f v x nx => simp only [he']; split <;> rfl
 
 /-! ### the serialization of a well-formed store begins with the signature iff it has entries -/
 
